@@ -131,19 +131,27 @@ def mk_member(m, g):
 
 def case_composite(c):
     g = mk_grid(c["grid"])
-    members = [mk_member(m, g) for m in c["members"]]
-    comp = getattr(S, c["cls"])(g, *members) if members else getattr(S, c["cls"])(g)
+
+    def build():
+        members = [mk_member(m, g) for m in c["members"]]
+        comp = getattr(S, c["cls"])(g, *members) if members else getattr(S, c["cls"])(g)
+        comp.update()
+        return members, comp
     out = {"grid": grid_out(g)}
     with torch.no_grad():
-        comp.update()
         pts = T(c["points"])
+        members, comp = build()
         out["member_tensors"] = [lin_tensor(m)[0].tolist() if m.linear else None for m in members]
-        before = [m.tensor().detach().clone() for m in members]
-        out["linear"] = bool(comp.linear)
-        if comp.linear:
-            out["tensor"] = lin_tensor(comp)[0].tolist()
-        out["fwd"] = comp(pts).tolist()
         out["member_fwd"] = [m(pts).tolist() for m in members]
+        out["linear"] = bool(comp.linear)
+        # every evaluation on a freshly built composite: MultiLevelTransform.tensor() may overwrite its first member,
+        # so a second evaluation of the same object would already see different parameters
+        if comp.linear:
+            members, comp = build()
+            out["tensor"] = lin_tensor(comp)[0].clone().tolist()
+        members, comp = build()
+        before = [m.tensor().detach().clone() for m in members]
+        out["fwd"] = comp(pts).tolist()
         after = [m.tensor().detach() for m in members]
         out["members_modified"] = [not torch.equal(a, b) for a, b in zip(before, after)]
     return out
